@@ -271,6 +271,33 @@ Proof.
   destruct v4; reflexivity.
 Qed.
 
+Lemma fold_due_le (l : list (N * cmd)) : forall acc t c,
+  (In (t, c) l \/ exists a, acc = Some a /\ a <= t) ->
+  exists d, fold_left (fun acc e => opt_min acc (Some (fst e))) l acc = Some d /\ d <= t.
+Proof.
+  induction l as [|[t0 c0] l IH]; intros acc t c H; cbn [fold_left].
+  - destruct H as [[]|(a & -> & Ha)]. exists a. split; [reflexivity|exact Ha].
+  - apply (IH _ t c). destruct H as [[E|I]|(a & -> & Ha)].
+    + inversion E; subst. right. cbn [fst]. destruct acc as [a|]; cbn [opt_min]; eexists; split; try reflexivity; lia.
+    + left. exact I.
+    + right. cbn [opt_min fst]. eexists. split; [reflexivity|]. lia.
+Qed.
+
+(* whatever is queued for retransmission is due work: the model's wake-up request (due_work) is
+   never later than a queued repeat *)
+Lemma due_work_covers_retrans st t c :
+  In (t, c) (d_retrans st) -> exists d, due_work st = Some d /\ d <= t.
+Proof. intros H. unfold due_work. apply (fold_due_le _ _ t c). left. exact H. Qed.
+
+Lemma goodbye_repeat_is_due st k ch now s i v4 m :
+  aget k (d_svcs st) = Some s -> In (i, v4, m) (goodbyes_of st s) ->
+  exists d, due_work (fst (unregister st k ch now)) = Some d /\ d <= now + 120.
+Proof.
+  intros G I. apply (due_work_covers_retrans _ _ (UnregisterResend m i v4)).
+  rewrite (unregister_schedules_repeat _ _ _ _ _ G). apply in_or_app. right.
+  apply in_map_iff. exists (i, v4, m). split; [reflexivity|exact I].
+Qed.
+
 (* the repeat is the saved packet, unchanged, on the interface and family it was first sent on *)
 Lemma unregister_resend_same_packet st m i v4 :
   unregister_resend st m i v4 = [] \/ unregister_resend st m i v4 = [OSend i v4 Mcast m].
